@@ -54,6 +54,41 @@ def gen_signal_program(rng: random.Random) -> dict:
     return {"program": [{"name": "g0", "nodes": nodes, "bound": []}], "values": values, "async_only": async_only}
 
 
+def gen_two_producers(rng: random.Random) -> dict:
+    """ONE signal emitted by TWO producers ordered among themselves (the second waits for the first's private signal); the waiter's data
+    input arrives late, so that it becomes ready in the very step in which the second producer runs: it must wait one more step."""
+    fn = gen._fn_node
+    nodes = [fn("first_pass", [["x", None]], ["draft"], {"b": "sum", "k": 1}, emits=["ready", "first_done"]),
+             fn("second_pass", [["y", None]], ["polished"], {"b": "sum", "k": 1}, emits=["ready"], waitFor=["first_done"]),
+             fn("publish", [["material", None]], ["report"], {"b": "tag", "t": "publish"}, waitFor=["ready"])]
+    # the waiter's data input: produced one step after the start (from x), or two (through an extra hop)
+    nodes.append(fn("prepare", [["x", None]], ["material"] if rng.random() < 0.6 else ["m0"], {"b": "sum", "k": 10}))
+    if nodes[-1]["dataOuts"] == ["m0"]:
+        nodes.append(fn("prepare2", [["m0", None]], ["material"], {"b": "sum", "k": 1}))
+        # ... then a third producer keeps the shape: it fires in the step in which the waiter becomes ready
+        nodes.append(fn("third_pass", [["polished", None]], ["final"], {"b": "sum", "k": 1}, emits=["ready"]))
+    if rng.random() < 0.4:
+        nodes.append(fn("audit", [["report", None]], ["audited"], {"b": "tag", "t": "audit"}, waitFor=["first_done"]))
+    rng.shuffle(nodes)
+    return {"program": [{"name": "g0", "nodes": nodes, "bound": []}], "values": [["x", rng.randint(0, 3)], ["y", rng.randint(0, 3)]]}
+
+
+def gen_sparse_signal_loop(rng: random.Random) -> dict:
+    """A counting loop in which the waiter's data input changes EVERY iteration while its signal is produced only now and then (the
+    emitter's own input changes once, when the counter crosses a threshold): the waiter runs once per production, not once per change."""
+    fn = gen._fn_node
+    limit = rng.randint(3, 6)
+    thr = rng.randint(1, limit - 1)
+    nodes = [{"name": "more", "kind": "route", "params": [["i", None]], "targets": ["bump", "__END__"], "multiTarget": False, "fallback": None, "defaultOpen": True,
+              "body": {"b": "table", "rows": [[v, "bump"] for v in range(limit)], "dflt": "__END__"}},
+             fn("bump", [["i", None]], ["i"], {"b": "sum", "k": 1}),
+             fn("bucket_of", [["i", None]], ["bucket"], {"b": "lt", "k": thr}),
+             fn("flush", [["bucket", None]], ["batch"], {"b": "tag", "t": "flush"}, emits=["flushed"]),
+             fn("note", [["i", None]], ["noted"], {"b": "tag", "t": "note"}, waitFor=["flushed"])]
+    rng.shuffle(nodes)
+    return {"program": [{"name": "g0", "nodes": nodes, "bound": []}], "values": [["i", 0]]}
+
+
 def gen_fed_producer(rng: random.Random) -> dict:
     """A producer that runs twice in a plain DAG (first on a parameter default, again when a longer branch delivers that parameter)
     and a node that waits for the producer's DATA output and becomes ready around the producer's second run."""
@@ -130,9 +165,19 @@ class C17(RunProp):
     budgets = {"quick": 300, "thorough": 6000}
 
     def cases(self, rng: random.Random, tier: str) -> Iterable[dict]:
+        forced_two = 4
+        forced_sparse = 4
         while True:
             r = rng.random()
-            if r < 0.45:
+            if forced_two or r < 0.05:
+                forced_two = max(0, forced_two - 1)
+                c = gen_two_producers(rng)
+                kind = "dag"
+            elif forced_sparse or r < 0.09:
+                forced_sparse = max(0, forced_sparse - 1)
+                c = gen_sparse_signal_loop(rng)
+                kind = "cycle"
+            elif r < 0.45:
                 c = gen_signal_program(rng)
                 kind = "dag"
             elif r < 0.6:
